@@ -3,6 +3,8 @@
 //!   edits --runs N --out <trace>                           structured random strings + edit sequences
 //!   ctors --out <trace> [--more]                           every construction path, lengths around the capacity
 //!   domains --work <dir> --tag <t> --out <trace>           two REAL domains in one temporary tree
+//!   resources --work <dir> --tag <t> --out <trace>         every kind of resource of two domains, run under harness/sysshim
+//!                                                          (IOX2_VERIF_ROOT=/, IOX2_VERIF_SYSLOG=<log>): created / removed paths
 //!   victim --root <dir> --prefix <p> --service <name>      helper process that is killed by `domains`
 //! The traces are validated by TLC (spec/data/NamesTrace.tla, DomainsTrace.tla).
 
@@ -10,6 +12,7 @@ extern crate iceoryx2_bb_loggers;
 
 mod ctors;
 mod domains;
+mod resources;
 mod strings;
 
 fn main() {
@@ -22,6 +25,7 @@ fn main() {
         Some("edits") => strings::edits(&args),
         Some("ctors") => ctors::main(&args),
         Some("domains") => domains::main(&args),
+        Some("resources") => resources::main(&args),
         Some("victim") => domains::victim(&args),
         other => {
             eprintln!("unknown sub-command {other:?}");
